@@ -324,8 +324,10 @@ func rethrowConsumerPanic(p iterator.Producer[Value]) iterator.Producer[Value] {
 	}
 }
 
-// recoverProducerPanic wraps a producer that is iterated in its own goroutine.
-// A panic of the producer is converted to an error which is passed to the consumer.
+// recoverProducerPanic wraps a producer that is iterated in its own goroutine, or
+// that feeds the workers of a parallel map or accept, which are not terminated if
+// the producer panics. A panic of the producer is converted to an error which is
+// passed to the consumer.
 func recoverProducerPanic(p iterator.Producer[Value]) iterator.Producer[Value] {
 	return func(yield iterator.Consumer[Value]) {
 		defer func() {
@@ -346,7 +348,7 @@ func (l *List) Accept(sta funcGen.Stack[Value]) (*List, error) {
 		// The filter may be executed in parallel. In this case the source list is
 		// iterated concurrently to the consumers of the filtered list, which use
 		// the stack st. Therefore the source needs its own stack.
-		return rethrowConsumerPanic(iterator.FilterAuto[Value](l.iterable(funcGen.NewEmptyStack[Value]()), func() func(v Value) (bool, error) {
+		return rethrowConsumerPanic(iterator.FilterAuto[Value](recoverProducerPanic(l.iterable(funcGen.NewEmptyStack[Value]())), func() func(v Value) (bool, error) {
 			s := funcGen.NewEmptyStack[Value]()
 			return func(v Value) (accepted bool, err error) {
 				defer recoverToError(&err)
@@ -372,7 +374,7 @@ func (l *List) Map(sta funcGen.Stack[Value]) (*List, error) {
 		// The map may be executed in parallel. In this case the source list is
 		// iterated concurrently to the consumers of the mapped list, which use
 		// the stack st. Therefore the source needs its own stack.
-		return rethrowConsumerPanic(iterator.MapAuto[Value, Value](l.iterable(funcGen.NewEmptyStack[Value]()), func() func(i int, v Value) (Value, error) {
+		return rethrowConsumerPanic(iterator.MapAuto[Value, Value](recoverProducerPanic(l.iterable(funcGen.NewEmptyStack[Value]())), func() func(i int, v Value) (Value, error) {
 			s := funcGen.NewEmptyStack[Value]()
 			return func(i int, v Value) (mapped Value, err error) {
 				defer recoverToError(&err)
